@@ -389,6 +389,16 @@ func checkC15(w *Worker) {
 		{{"-b", "2021/01/25", "-e", "2021/01/25", "report", "totals"}, {"--begin", "2021/01/25", "--end", "2021/01/25", "report", "totals"}},
 		{{"lint", "-s", "log.yaml"}, {"lint", "--silent", "log.yaml"}},
 		{{"-d", "food.yaml", "-l", "log.yaml", "reg"}, {"--database", "food.yaml", "--logfile", "log.yaml", "reg"}},
+		// the --flag=value spelling, a boolean flag spelt =true, flags before and after one another
+		// (NOT the =false spelling: the program reads boolean flags with IsSet, so `--desc=false` sorts descending and
+		// `--no-totals=false` hides the totals; no listed property speaks about that spelling - see DESIGN 9.4)
+		{{"reg", "-s", "cal"}, {"reg", "--single-element=cal"}},
+		{{"reg", "-b", "2021/01/25", "-e", "2021/01/25"}, {"reg", "--end=2021/01/25", "--begin=2021/01/25"}},
+		{{"-b", "2021/01/25", "bal", "-c"}, {"--begin=2021/01/25", "bal", "--collapse=true"}},
+		{{"reg", "--no-totals"}, {"reg", "--no-totals=true"}},
+		{{"reg", "-s", "cal", "-g"}, {"reg", "-g", "-s", "cal"}},
+		{{"--maxdepth", "10", "reg"}, {"--maxdepth=10", "reg"}},
+		{{"--date-format", "2006/01/02", "print"}, {"--date-format=2006/01/02", "print"}},
 	}
 	w.Explore("flag-and-command-aliases", ExploreOpts{ShardDepth: 2}, func(x *Exec) {
 		pi := x.Choose(len(aliasPairs), "config:alias-pair")
